@@ -86,6 +86,8 @@ pub struct Cfg {
     pub free_scans: bool,
     /// Offer scans of single segments (when `free_scans` is off).
     pub segment_scans: bool,
+    /// Longest run of boundaries one free scan may span (usize::MAX = any).
+    pub max_run: usize,
 }
 
 pub struct Ctx<'a> {
@@ -362,6 +364,9 @@ pub fn enabled(u: &Universe, cfg: &Cfg, m: &Model) -> Vec<Op> {
     if cfg.free_scans {
         for i in 0..b.len() {
             for j in i + 1..b.len() {
+                if j - i > cfg.max_run {
+                    continue;
+                }
                 ops.push(Op::Scan { from: b[i], to: b[j] - 1 });
             }
         }
